@@ -74,12 +74,31 @@ def run(tier, seed):
         return pd_eval(n, u) / pd_eval(d, u)
     for s1 in shapes[:3]:
         f, n1, d1 = mkf("f", *s1)
-        for g in (z ** -2, 2 * z ** -1, z ** 2, (1 + z ** -1) / (1 - Sym.var("q") * z ** -1) if False else z ** -1 + 1):
+        for g in (z ** -2, 2 * z ** -1, z ** 2, z ** -1 + 1, 1 / (F(2) * z ** -1), z / ZFilter([F(2)]), ZFilter({-2: F(1)}, {0: F(4)}), 1 / (F(-2) * z ** -3), F(3) * z / ZFilter([F(2)])):
             def sub():
                 h = f(g)
                 gv = val(pd_of(g.numpoly), pd_of(g.denpoly), t)
                 return same(val(pd_of(h.numpoly), pd_of(h.denpoly), t), val(n1, d1, gv)), "f(g) is not f with g substituted for z"
             R.guard("substitution", {"f": s1, "g": str(g)}, sub)
+    # denominators with positive powers of z (normalised at construction to causal form): same rational function, same filter
+    for den, label in ((z + 1, "z+1"), (z ** 2 + 3 * z + 1, "z^2+3z+1"), (2 * z - 1 + z ** -1, "2z-1+z^-1")):
+        def posden():
+            h = 1 / den
+            nh, dh = pd_of(h.numpoly), pd_of(h.denpoly)
+            nd_, dd_ = pd_of(den.numpoly), pd_of(den.denpoly)
+            if not rat_eq(nh, dh, dd_, nd_):
+                return False, "1/(%s) is %r / %r" % (label, nh, dh)
+            if min(dh) != 0 or any(k < 0 for k in dh):
+                return False, "1/(%s): denominator %r is not in causal form (constant term, delays only)" % (label, dh)
+            xs_ = [Sym.var("x%d" % i) for i in range(5)]
+            f0 = ZFilter([1, 2])
+            got = list(((f0 / den) * den)(list(xs_), zero=0))
+            exp_ = list(f0(list(xs_), zero=0))
+            if not sig_eq(got, exp_):
+                return False, "((f/g)*g)(x) != f(x) for g = %s" % label
+            alt = ZFilter(dict((k - max(nd_), v) for k, v in dd_.items()), dict((k - max(nd_), v) for k, v in nd_.items()))
+            return (h == alt) and not (h != alt) and hash(h) == hash(alt), "1/(%s) does not compare / hash equal to its causal form" % label
+        R.guard("denominator-with-positive-powers-is-normalised", {"g": label}, posden)
     # ---- (b) signals: integer coefficient filters, symbolic samples
     xs = [Sym.var("x%d" % i) for i in range(6)]
     filts = [ZFilter([1]), ZFilter([2, -1]), ZFilter([1], [1, -1]), ZFilter([1, 1], [1, 2]), ZFilter([0, 1]), ZFilter([3], [1, 0, 1]), ZFilter([1, -2, 1], [1, 1])]
